@@ -39,12 +39,12 @@ def main():
     s = rd("runtime/runtime2.go")
     s = sub_once(s, "\tvalgrindStackID uintptr\n}\n",
                  "\tvalgrindStackID uintptr\n\n\t// verif: simulator-owned random stream of this goroutine\n"
-                 "\tvsSeed  uint64\n\tvsCtr   uint64\n\tvsSpawn uint64\n\tvsEpoch uint64\n}\n", "runtime2.go g struct")
+                 "\tvsSeed  uint64\n\tvsCtr   uint64\n\tvsSpawn uint64\n\tvsEpoch uint64\n\tvsLocks int64 // sync.Mutex/RWMutex acquisitions minus releases made by this goroutine\n}\n", "runtime2.go g struct")
     wr("runtime/runtime2.go", s)
 
     s = rd("runtime/proc.go")
     s = sub_once(s, "\tnewg.gopc = callerpc\n",
-                 "\tnewg.gopc = callerpc\n\tnewg.vsSeed, newg.vsCtr, newg.vsSpawn, newg.vsEpoch = verifSpawnSeed(callergp), 0, 0, 0\n",
+                 "\tnewg.gopc = callerpc\n\tnewg.vsSeed, newg.vsCtr, newg.vsSpawn, newg.vsEpoch, newg.vsLocks = verifSpawnSeed(callergp), 0, 0, 0, 0\n",
                  "proc.go newproc1")
     wr("runtime/proc.go", s)
 
@@ -69,6 +69,21 @@ def main():
 
     wr("runtime/verifsim.go", RUNTIME_VERIFSIM)
 
+    # ---------------- sync: which goroutine holds a lock (statement-level preemption must
+    # never park a goroutine that does: whoever wants the lock next would block outside a
+    # park point and the simulator could not proceed) ----------------
+    s = rd("sync/mutex.go")
+    s = sub_once(s, "func (m *Mutex) Lock() {\n\tm.mu.Lock()\n}", "func (m *Mutex) Lock() {\n\tm.mu.Lock()\n\truntime_verifLockDelta(1)\n}", "sync Mutex.Lock")
+    s = sub_once(s, "func (m *Mutex) TryLock() bool {\n\treturn m.mu.TryLock()\n}", "func (m *Mutex) TryLock() bool {\n\tok := m.mu.TryLock()\n\tif ok {\n\t\truntime_verifLockDelta(1)\n\t}\n\treturn ok\n}", "sync Mutex.TryLock")
+    s = sub_once(s, "func (m *Mutex) Unlock() {\n\tm.mu.Unlock()\n}", "func (m *Mutex) Unlock() {\n\truntime_verifLockDelta(-1)\n\tm.mu.Unlock()\n}", "sync Mutex.Unlock")
+    wr("sync/mutex.go", s)
+    s = rd("sync/rwmutex.go")
+    s = sub_once(s, "func (rw *RWMutex) RLock() {\n", "func (rw *RWMutex) RLock() {\n\tdefer runtime_verifLockDelta(1)\n", "sync RWMutex.RLock")
+    s = sub_once(s, "func (rw *RWMutex) RUnlock() {\n", "func (rw *RWMutex) RUnlock() {\n\truntime_verifLockDelta(-1)\n", "sync RWMutex.RUnlock")
+    s = sub_once(s, "\t\tif rw.readerCount.CompareAndSwap(c, c+1) {\n", "\t\tif rw.readerCount.CompareAndSwap(c, c+1) {\n\t\t\truntime_verifLockDelta(1)\n", "sync RWMutex.TryRLock")
+    wr("sync/rwmutex.go", s)
+    wr("sync/verifsim.go", SYNC_VERIFSIM)
+
     # ---------------- syscall: fault points at the typed wrappers ----------------
     s = rd("syscall/zsyscall_linux_amd64.go")
     for name in SYSCALL_FUNCS:
@@ -90,7 +105,10 @@ RUNTIME_VERIFSIM = r'''// Code generated by /verif/rtpatch; simulation builds on
 
 package runtime
 
-import "internal/runtime/atomic"
+import (
+	"internal/runtime/atomic"
+	_ "unsafe" // go:linkname
+)
 
 var verifSimOn uint32
 var verifSimSalt uint64
@@ -170,11 +188,33 @@ func VerifGID() uint64 {
 	return getg().vsSeed
 }
 
+//go:linkname sync_verifLockDelta sync.runtime_verifLockDelta
+//go:nosplit
+func sync_verifLockDelta(d int64) {
+	getg().vsLocks += d
+}
+
+// VerifLocksHeld reports how many sync.Mutex / sync.RWMutex acquisitions the calling
+// goroutine has made and not yet released (sync.Once and sync.Map hold one inside).
+func VerifLocksHeld() int64 {
+	return getg().vsLocks
+}
+
 // VerifSimStats reports how many map randoms and select shuffles were drawn
 // from the seam since process start.
 func VerifSimStats() (mapRands, selects uint64) {
 	return verifMapRands.Load(), verifSelects.Load()
 }
+'''
+
+SYNC_VERIFSIM = r'''// Code generated by /verif/rtpatch; simulation builds only.
+
+package sync
+
+import _ "unsafe"
+
+// Implemented in package runtime (linkname push).
+func runtime_verifLockDelta(d int64)
 '''
 
 SYSCALL_FUNCS = ["openat", "read", "write", "pread", "pwrite", "Close", "Renameat", "unlinkat",
